@@ -185,6 +185,26 @@ type caseSpec struct {
 
 func genCase(t *rapid.T, prefix string) *caseSpec {
 	c := &caseSpec{Module: rapid.IntRange(0, len(mods)-1).Draw(t, "module")}
+	if rapid.IntRange(0, 7).Draw(t, "reschedulecase") == 0 {
+		// quiet schedule: one or two tasks without max delay that are only ever (re-)scheduled, also from far to near
+		n := rapid.IntRange(1, 2).Draw(t, "rtasks")
+		for i := 0; i < n; i++ {
+			c.Tasks = append(c.Tasks, taskSpec{Name: fmt.Sprintf("%st%d", prefix, i), HoldMS: 3, MaxDelay: "0"})
+		}
+		k := rapid.IntRange(2, 5).Draw(t, "rops")
+		for i := 0; i < k; i++ {
+			o := op{Do: "schedule", Task: rapid.IntRange(0, n-1).Draw(t, "rtask")}
+			o.MS = rapid.SampledFrom([]int{5, 15, 40, 3600 * 1000, 3600 * 1000}).Draw(t, "rin")
+			if i == k-1 && o.MS > 1000 && rapid.Bool().Draw(t, "endnear") {
+				o.MS = 10
+			}
+			c.Ops = append(c.Ops, o)
+			if rapid.Bool().Draw(t, "rsleep") {
+				c.Ops = append(c.Ops, op{Do: "sleep", MS: rapid.SampledFrom([]int{1, 4, 10}).Draw(t, "rsl")})
+			}
+		}
+		return c
+	}
 	n := rapid.IntRange(1, 5).Draw(t, "tasks")
 	for i := 0; i < n; i++ {
 		ts := taskSpec{
